@@ -1,8 +1,9 @@
 """Per-property metadata: claimed level, what is not decided, which Kani harnesses belong to it."""
 
-FS = ('FS layer: the write side (RollingWriter::{write,persist,forward,...}, RollingReader::{open,into_writer}) is trusted against the BlockWrite contract; '
-      'the FS primitives Directory::{open,open_file}, read_block, create_file, FileTracker::{next,inc} are trusted against the ghost FS model of spec/vfs.rs; '
-      'RollingReader::{next_block,block}, FileTracker::{take_first_unused,first,count}, Directory::{gc,has_files_that_can_be_deleted} are VERIFIED against those')
+FS = ('FS layer: RollingWriter::{write,persist,forward,num_bytes_remaining_in_block,current_file} are VERIFIED against the BlockWrite contract over ghost state and the ASSUMED contracts of the '
+      'BufWriter<File> stand-in vshim::BufFile (R17: with_capacity/write_all/flush/sync_data/seek; content/flushed/synced ghost lengths) plus one named assumption A-stream-bound (fewer than 2^62 bytes through one writer); '
+      'RollingReader::{next_block,block}, FileTracker::{take_first_unused,first,count}, Directory::{gc,has_files_that_can_be_deleted}, {Frame,Record}Writer::directory are VERIFIED against the ghost FS model of spec/vfs.rs; '
+      'still trusted (contracts assumed): RollingReader::{open,into_writer}, Directory::{open,open_file,sync_directory}, read_block, create_file, FileTracker::{next,inc,new,from_file_numbers}, RollingWriter::size, FileNumber::can_be_deleted')
 
 LEMMAS = {
     'C01': ['vspec::lemma_parse_ser_item', 'vspec::lemma_parse_ser_items', 'vspec::lemma_parse_ser_entry', 'vspec::lemma_replay_items_is_append_all', 'vspec::lemma_ser_items_empty', 'vspec::lemma_replay_history',
